@@ -87,6 +87,8 @@ def _build(r, b):
             dict.__setitem__(c, k, _build(v, b))
         c._log, c._nid = b.log, nid
         return c
+    if tag == 'plist':
+        return [_build(v, b) for v in r[1]]        # a PLAIN list (exact type list), not recorded
     if tag in ('rlist', 'list'):
         c = tg.RecList()
         nid = len(b.nodes)
@@ -341,8 +343,10 @@ def check_read(recipe, ctx):
 # ---------------------------------------------------------------------------
 # Assign / Delete through wildcards
 
-def gen_tree(draw, d):
-    """acyclic tree of recording containers whose leaves (depth d) are dicts / objects"""
+def gen_tree(draw, d, leaf='map'):
+    """acyclic tree of recording containers whose leaves (depth d) are dicts / objects (or plain lists of numbers)"""
+    if d <= 0 and leaf == 'list':
+        return ['plist', [['i', draw(st.integers(0, 9))] for _ in range(draw(st.integers(0, 3)))]]
     if d <= 0:
         tag = draw(st.sampled_from(['rdict', 'rdict', 'robj']))
         ks = draw(st.lists(st.sampled_from(['x', 'y']), max_size=2, unique=True))
@@ -350,9 +354,9 @@ def gen_tree(draw, d):
     tag = draw(st.sampled_from(['rdict', 'rlist', 'rlist', 'robj']))
     n = draw(st.integers(0, 3))
     if tag == 'rlist':
-        return ['rlist', [gen_tree(draw, d - 1) for _ in range(n)]]
+        return ['rlist', [gen_tree(draw, d - 1, leaf) for _ in range(n)]]
     ks = draw(st.lists(st.sampled_from(['a', 'b', 'k']), min_size=n, max_size=n, unique=True))
-    return [tag, [[k, gen_tree(draw, d - 1)] for k in ks]]
+    return [tag, [[k, gen_tree(draw, d - 1, leaf)] for k in ks]]
 
 
 def gen_mutate(draw):
@@ -368,6 +372,11 @@ def gen_mutate(draw):
         depth += 1
     if draw(st.integers(0, 5)) == 0:
         segs[0] = '**'
+    if draw(st.sampled_from(range(4))) == 0:
+        # the matched entries are themselves plain LISTS and the final segment is an index into them
+        return {'tree': gen_tree(draw, depth, 'list'), 'segs': segs, 'final': draw(st.sampled_from(['0', '0', '1', '2'])),
+                'op': draw(st.sampled_from(['assign', 'assign', 'delete'])), 'ignore_missing': draw(st.booleans()),
+                'api': draw(st.sampled_from(['func', 'spec'])), 'leaf': 'list'}
     return {'tree': gen_tree(draw, depth), 'segs': segs, 'final': draw(st.sampled_from(['x', 'y', 'new'])),
             'op': draw(st.sampled_from(['assign', 'assign', 'delete'])),
             'ignore_missing': draw(st.booleans()),
@@ -425,6 +434,8 @@ def check_mutate(recipe, ctx):
     path = '.'.join(segs + [final])
     if ign:
         ctx.label('delete-ignore-missing')
+    if recipe.get('leaf') == 'list':
+        ctx.label('list-entries-index-final')
     ctx.label('op-' + op, 'wild-%d' % nwild, 'entries-%d' % min(len(entries), 3),
               'exp-err' if exp_err is not None else 'exp-ok')
     ctx.nontrivial(nwild >= 2 or len(entries) >= 2)
@@ -462,11 +473,61 @@ def check_mutate(recipe, ctx):
     ctx.outcome([op, path, len(entries)])
 
 
+# ---------------------------------------------------------------------------
+# children that exist only while they are being enumerated: generators yielding fresh containers
+
+def enum_lazychildren(tier):
+    out = []
+    for n in (3, 50, 200):
+        for kind in ('dict', 'list', 'obj'):
+            for tail in ('c', 'star'):
+                out.append({'n': n, 'kind': kind, 'tail': tail})
+    return out
+
+
+def check_lazychildren(recipe, ctx):
+    n, kind = recipe['n'], recipe['kind']
+
+    def fresh(i):
+        if kind == 'dict':
+            return {'c': i}
+        if kind == 'list':
+            return [{'c': i}]
+        o = tg.Obj()
+        o.c = i
+        return o
+
+    def stage2():
+        for i in range(n, 2 * n):
+            yield fresh(i)
+
+    def stage1():
+        for i in range(n):
+            yield fresh(i)
+        yield stage2()
+    spec = Path(T.__starstar__(), 'c') if recipe['tail'] == 'c' else Path(T.__starstar__(), T.__star__())
+    got = glom.glom({'root': stage1()}, spec)
+    if recipe['tail'] == 'c':
+        exp = list(range(2 * n))
+        if sorted(got) != exp:
+            missing = sorted(set(exp) - set(got))
+            raise Mismatch('wrong-entries', "glom({'root': <generator of %d fresh %ss, then a generator of %d more>}, '**.c'): %d of %d "
+                           "descendants are missing (first: %r)" % (n, kind, n, len(missing), 2 * n, missing[:5]))
+    else:
+        flat = [x for sub in got for x in sub if isinstance(x, int)]
+        if kind != 'list' and sorted(flat) != list(range(2 * n)):
+            raise Mismatch('wrong-entries', "'**.*' over lazily produced %ss: expected the %d leaf values, got %d" % (kind, 2 * n, len(flat)))
+    ctx.label('n-%d' % n)
+    ctx.nontrivial(True)
+    ctx.outcome([n, kind, recipe['tail']])
+
+
 SUBS = [
+    Sub('lazychildren', check_lazychildren, enum=enum_lazychildren),
     Sub('read', check_read, gen=gen_read, quick=5000, thorough=15000,
         floors={'shared-or-cyclic': 0.2, 'starstar': 0.12, 'wild-2': 0.06, 'exp-ok': 0.5}),
     Sub('mutate', check_mutate, gen=gen_mutate, quick=2500, thorough=8000,
-        floors={'wild-2': 0.06, 'wild-3': 0.1, 'exp-ok': 0.3}),
+        floors={'wild-2': 0.06, 'wild-3': 0.1, 'exp-ok': 0.3, 'list-entries-index-final': 0.08}),
     fuzzrun.fuzz_sub('fuzz-path-text', 'c01-path-text', runs=20000, campaigns=4,
                      corpus=os.path.join(boot.VERIF, 'fuzz', 'corpus', 'c01-path-text'), replay_sub='read'),
 ]
